@@ -109,20 +109,34 @@ def classify(sql, params=()):
 # --------------------------------------------------------------------------
 
 class Recorder:
-    """Collects the action log of the current call."""
+    """Collects the action log of the current call (one log per thread)."""
 
     def __init__(self):
-        self.actions = []          # abstract ids
-        self.page_counts = []      # results of PRAGMA page_count
+        import threading
+        self._tl = threading.local()
         self.file_ids = {}         # relative value-file name -> id (first appearance)
-        self.raw = []              # (kind, detail) for debugging / K3 yield points
         self.on_action = None      # hook(kind, detail) called BEFORE the action runs
         self.enabled = True
 
+    @property
+    def actions(self):             # abstract ids
+        try:
+            return self._tl.actions
+        except AttributeError:
+            self._tl.actions = []
+            return self._tl.actions
+
+    @property
+    def page_counts(self):         # results of PRAGMA page_count
+        try:
+            return self._tl.page_counts
+        except AttributeError:
+            self._tl.page_counts = []
+            return self._tl.page_counts
+
     def reset(self):
-        self.actions = []
-        self.page_counts = []
-        self.raw = []
+        self._tl.actions = []
+        self._tl.page_counts = []
 
     def fid(self, path):
         rel = path
